@@ -209,6 +209,11 @@ ALPHABET = {
     'raises_conform14_baddate': lambda: (gt.conform14, [X, Y, Z, None, gc.itrf2014_to_gda2020, A(V33)]),
     'raises_conform7_rot': lambda: (gt.conform7, [X, Y, Z, gc.Transformation('A', 'B', 0, 1, 2, 3, 4, 75.0, 0, 0), A(V33)]),
     'raises_geo2grid_band': lambda: (gv.geo2grid, [85.0, 10.0]),
+    'raises_geo2grid_ell': lambda: (gv.geo2grid, [-33.5, 151.2, 0, 'not an ellipsoid']),
+    'raises_grid2geo_ell': lambda: (gv.grid2geo, [55, 300000.0, 6200000.0, 'south', None]),
+    'raises_vincinv_ell': lambda: (gg.vincinv, [-37.9, 144.4, -37.6, 143.9, 'not an ellipsoid']),
+    'add_date_refepoch': lambda: ((lambda t, d: t + d), [gc.atrf2014_to_gda2020, datetime.date(2020, 1, 1)]),
+    'add_date_refepoch_itrf': lambda: ((lambda t, d: t + d), [gc.itrf2008_to_gda94, gc.itrf2008_to_gda94.ref_epoch]),
     'raises_grid2geo_hemi': lambda: (gv.grid2geo, [56, 300000, 6200000, 'east']),
     'raises_hp2dec': lambda: (ga.hp2dec, [12.6]),
     'raises_vincinv_utm_zone': lambda: (gg.vincinv_utm, [55, 500000.0, 6000000.0, 99, 500000.0, 6000000.0]),
@@ -321,7 +326,11 @@ def execute(name):
     before = [snp.canon(a) for a in args]
     try:
         r = fn(*args)
-        res = ('ok', snp.canon(r))
+        reg = snp.constants_registry()
+        alias = [k for part in (r if isinstance(r, tuple) else (r,)) for k, c in reg.items() if part is c]
+        # an operation documented to build a new object that hands out the shipped constant itself: the caller's edits of "its"
+        # result would rewrite the constant
+        res = ('alias', tuple(alias[:2])) if alias else ('ok', snp.canon(r))
         HELD.append((name, r, res[1]))
         del HELD[:-4]
     except Exception as e:
@@ -331,9 +340,15 @@ def execute(name):
     return res, changed
 
 
-def in_child(fn):
-    """runs fn() in a forked copy of this (pristine) interpreter and returns its picklable result"""
+class ChildTimeout(Exception):
+    pass
+
+
+def in_child(fn, timeout=None):
+    """runs fn() in a forked copy of this (pristine) interpreter and returns its picklable result; with a timeout the child is killed
+    and ChildTimeout raised (a call blocked on a lock that a finished call left held never returns)"""
     import pickle
+    import select
     r, w = os.pipe()
     pid = os.fork()
     if pid == 0:
@@ -350,8 +365,21 @@ def in_child(fn):
             os._exit(0)
     os.close(w)
     try:
-        with os.fdopen(r, 'rb') as f:
-            data = f.read()
+        if timeout is not None:
+            chunks, t_end = [], __import__('time').time() + timeout
+            while True:
+                left = t_end - __import__('time').time()
+                if left <= 0 or not select.select([r], [], [], left)[0]:
+                    raise ChildTimeout('no answer within %.0f s' % timeout)
+                b = os.read(r, 1 << 20)
+                if not b:
+                    break
+                chunks.append(b)
+            os.close(r)
+            data = b''.join(chunks)
+        else:
+            with os.fdopen(r, 'rb') as f:
+                data = f.read()
         os.waitpid(pid, 0)
     except BaseException:
         # watchdog / interruption: never leave the forked interpreter behind
@@ -463,7 +491,11 @@ def check_obs(rec, hist, obs, one):
         bad = True
         rec.fail('a value returned by an earlier call (%s) was changed by a later call: results share storage' % o['stale'][0],
                  site='purity:result-overwritten:' + o['stale'][0], observed=o['stale'], case=one, coords=co)
-    if o['res'] != ref[n]:
+    if o['res'][0] == 'alias':
+        bad = True
+        rec.fail('the call returned the shipped constant %s itself instead of a new object' % (o['res'][1],), site='purity:result-is-constant:' + n,
+                 observed=o['res'][1], case=one, coords=co)
+    elif o['res'] != ref[n]:
         bad = True
         if ref[n][0] != 'ok' and o['res'][0] != 'ok':
             pass
@@ -609,6 +641,11 @@ def gen_sched(tier, seed):
     for a, b in (('vcv_cart2local_p2', 'vcv_cart2local'), ('conform14_itrf08_vcv', 'add_date'), ('k_val95', 'conform7_vcv'),
                  ('conform14_user_alias', 'conform14_apm_vcv')):
         yield {'threads': [[a, a], [b]], 'bound': 1}
+    # a REJECTED call in one thread, an ordinary call in the other (and the ordinary call again afterwards): what a failed call leaves
+    # behind - a lock still held, a flag still set - must not reach another thread (a call that never returns is reported as a deadlock)
+    for a in ('raises_geo2grid_ell', 'raises_grid2geo_ell', 'raises_mga2020_zone61', 'raises_conform7_rot', 'raises_vincinv_ell', 'raises_geo2grid_band'):
+        for b in ('geo2grid', 'conform7_vcv', 'mga94_to_mga2020_p3'):
+            yield {'threads': [[a], [b]], 'bound': 0, 'isolated': True}
     # a call documented to WARN next to calls of every traced module (a call that manipulates the process-wide warning filters
     # while it runs turns the other thread's warning into an exception)
     for a in ('relative_error', 'error_ellipse', 'conform7_vcv', 'coord_geo_tm_cart', 'vcv_cart2local', 'k_val95', 'add_date'):
@@ -635,11 +672,11 @@ def gen_sched(tier, seed):
                 yield {'threads': [[a], [b]], 'bound': 1, 'opcode': True, 'part': [k, nparts]}
 
 
-def run_schedule(threads, files, prefix, opcode):
+def run_schedule(threads, files, prefix, opcode, timeout=None):
     """ONE execution, in a forked pristine interpreter: the threads run under the given schedule prefix (default choice
     afterwards); then every call is executed once more sequentially (probe) so that state corrupted by the interleaving
     and read only by a LATER call is seen too."""
-    return in_child(lambda: run_schedule_here(threads, files, prefix, opcode, True))
+    return in_child(lambda: run_schedule_here(threads, files, prefix, opcode, True), timeout=timeout)
 
 
 def run_schedule_here(threads, files, prefix, opcode, full_snapshot):
@@ -666,7 +703,9 @@ def run_schedule_here(threads, files, prefix, opcode, full_snapshot):
             for n, (res, changed) in zip(calls, ex.results[i]):
                 if changed:
                     bad.append(('args', n))
-                if res != ref[n]:
+                if res[0] == 'alias':
+                    bad.append(('result-is-constant', n, res[1]))
+                elif res != ref[n]:
                     bad.append(('result', n, str(res)[:160]))
         if writes:
             bad.append(('write', writes[:4]))
@@ -714,6 +753,27 @@ def ev_sched(case, rec):
                      observed=r['bad'])
         return
     part = tuple(case['part']) if case.get('part') else None
+    if case.get('isolated'):
+        # whole calls in both orders, each execution in its own forked interpreter under a time limit: a call that never returns
+        # (blocked on something a finished - rejected - call left held) is a deadlock, not a hang of the checker
+        rec.nontriv((repr(threads), 'isolated'))
+        for order in ([], [1]):
+            try:
+                r = run_schedule(threads, files, order, opcode, timeout=40)
+            except ChildTimeout:
+                rec.fail('after / next to the rejected call %s another thread\'s %s never returns (deadlock)' % (threads[0], threads[1]),
+                         site='purity:schedule:deadlock', observed='no answer within 40 s', case=dict(case, schedule=order), coords={'threads': threads})
+                rec.outcome('sched-deadlock')
+                return
+            rec.transitions += 2
+            if r['bad']:
+                rec.fail('a rejected call in one thread changes what another thread\'s call returns: %s' % sorted({b[0] for b in r['bad']}),
+                         site='purity:schedule:' + r['bad'][0][0], observed=r['bad'], case=dict(case, schedule=order), coords={'threads': threads})
+                rec.outcome('sched-bad')
+                return
+        rec.state(('sched-isolated', repr(threads)))
+        rec.outcome('sched-ok:isolated')
+        return
 
     def explore_all(forked):
         out = {'viol': [], 'outcomes': set(), 'nbad': 0}
